@@ -307,9 +307,14 @@ pub fn c19_sweep(ctx: &Ctx, out: &mut RunOut) -> Result<(), Violation> {
         for kind in kinds {
             let mut cfg = if ctx.chance(F, 1, 2, "fault-with-chunking") { draw_benign_sink(ctx) } else { SinkCfg::healthy() };
             cfg.fault_at = Some((off, kind));
+            // a third of the failures are a single refused call after which the sink works again
+            cfg.recovers = ctx.chance(F, 1, 3, "fault-recovers");
             let mut sink = SimSink::new(ctx, cfg.clone());
             let mut t = target.clone_t();
             let r = guarded("save_to(failing sink)", || t.save_to(&mut sink))?;
+            if cfg.recovers {
+                ctx.count("fault-single-refused-call");
+            }
             if !sink.fault_fired {
                 return Err(Violation::new(
                     "harness-fault-not-reached",
@@ -337,7 +342,7 @@ pub fn c19_sweep(ctx: &Ctx, out: &mut RunOut) -> Result<(), Violation> {
             if sink.accepted.len() > len || sink.accepted[..] != reference[..sink.accepted.len()] {
                 return Err(Violation::new(
                     "delivered-not-a-prefix",
-                    format!("bytes delivered before the fault at {off} are not a prefix of the complete output"),
+                    format!("bytes delivered to a sink that refused a write at {off} are not a prefix of the complete output ({} bytes delivered{})", sink.accepted.len(), if cfg.recovers { ", sink accepted later writes" } else { "" }),
                 ));
             }
             // (c) the same (already mutated) document on a healthy sink
